@@ -182,6 +182,10 @@ def fit_program(prog, fresh=False, model=None):
             Xl = Xl.astype(np.dtype(prog["labeled_dtype"]))
         lay = prog.get("layout")
         Xu = X[nl:nl + nu].copy()
+        if nu == 0 and prog.get("empty_as"):
+            # the empty unlabeled set spelt the way a caller might spell it
+            Xu = {"list": [], "tuple": (), "array1d": np.array([]),
+                  "empty2d": np.empty((0, X.shape[1]))}[prog["empty_as"]]
         if lay:
             # the same values handed over in another memory layout (Fortran order, transposed view, strided view)
             from mc import layout as LY
